@@ -21,6 +21,7 @@ class Lowering:
     def __init__(self):
         self.cache = {}
         self.side = []          # assumptions introduced by the lowering (sqrt definitions, ...)
+        self.nonreal = {}       # argument key -> {"nan": Bool, "inf": Bool}: a value is not NaN and infinite at once
         self.names = {}
 
     def atom(self, i):
@@ -60,6 +61,10 @@ class Lowering:
                 e = z3.If(args[0] == 0, z3.RealVal(1), z3.RealVal(0))
             elif op == "isnan":
                 e = z3.If(z3.Bool(nm), z3.RealVal(1), z3.RealVal(0))
+                self.nonreal.setdefault(k[2][0], {})["nan"] = z3.Bool(nm)
+            elif op == "isinf":
+                e = z3.If(z3.Bool(nm), z3.RealVal(1), z3.RealVal(0))
+                self.nonreal.setdefault(k[2][0], {})["inf"] = z3.Bool(nm)
             elif op == "abs":
                 e = z3.If(args[0] >= 0, args[0], -args[0])
             elif op == "sign":
@@ -105,6 +110,9 @@ def check_valid(pairs, pre=(), nonzero=(), nonneg=(), timeout_ms=10000):
     for p in nonneg:
         assumptions.append(low.poly(p) >= 0)
     assumptions += low.side
+    for d in low.nonreal.values():
+        if "nan" in d and "inf" in d:
+            assumptions.append(z3.Not(z3.And(d["nan"], d["inf"])))
     s = z3.Solver()
     s.set("timeout", timeout_ms)
     for a in assumptions:
